@@ -388,8 +388,6 @@ where
         Ok(RcRef::new(r, rc))
     }
     fn update<T: ObjectWrite>(&mut self, old: PlainRef, obj: T) -> Result<RcRef<T>> {
-        use std::collections::hash_map::Entry;
-
         let r = match self.refs.get(old.id)? {
             XRef::Free { .. } => panic!(),
             XRef::Raw { gen_nr, .. } => PlainRef { id: old.id, gen: gen_nr },
@@ -399,19 +397,8 @@ where
             XRef::Invalid => panic!()
         };
         let primitive = obj.to_primitive(self)?;
-        match self.changes.entry(old.id) {
-            Entry::Vacant(e) => {
-                e.insert((primitive, r.gen));
-            }
-            Entry::Occupied(mut e) => match (e.get_mut(), primitive) {
-                ((Primitive::Dictionary(ref mut dict), _), Primitive::Dictionary(new)) => {
-                    dict.append(new);
-                }
-                (old, new) => {
-                    *old = (new, r.gen);
-                }
-            }
-        }
+        // the last value written wins, also when an update is already pending
+        self.changes.insert(old.id, (primitive, r.gen));
         // a cached copy of the old object must not be served by a later `get`
         self.cache.clear();
         let rc = Shared::new(obj);
